@@ -49,6 +49,9 @@ func init() {
 			var secs []core.Section
 			secs = append(secs, seqSections("text-", TextAtoms, tk, run)...)
 			secs = append(secs, seqSections("lexeme-", LexemeAtoms, lk, run)...)
+			// bytes a lexer might mistake for whitespace, inside code and inside text
+			odd := []string{"{{", "}}", "@if(", ")", "x", "1", " ", "\n", "\xa0", "\x85", "\v", "\f", "\xc2\xa0", "\t", "\r", "\"", "+"}
+			secs = append(secs, seqSections("odd-bytes-", odd, lk+1, run)...)
 			secs = append(secs, seqSections("moredir-", append(append([]string{}, MoreDirectiveAtoms...), "\\", "(", " ", "x"), 2, run)...)
 			all := allAtoms()
 			secs = append(secs, core.Section{Name: "random", N: nrand, Run: func(c *core.Ctx, i int) {
